@@ -254,12 +254,14 @@ func c02tTypeAck(lines []c02tLine, g *c02tCfg) []c02tMsg {
 				continue
 			}
 			m := c02tMsg{kind: "SUCCS", raw: append([]byte{}, d...)}
+			// unmarshalTargetFile: any JSON object with a non-negative size will do (a record without a
+			// name field gives the empty name)
 			var js struct {
-				Name *string `json:"name"`
-				Size int64   `json:"size"`
+				Name string `json:"name"`
+				Size int64  `json:"size"`
 			}
-			if json.Unmarshal(d, &js) == nil && js.Name != nil {
-				m.jsOK, m.jsName, m.jsSize = true, *js.Name, js.Size
+			if json.Unmarshal(d, &js) == nil && js.Size >= 0 {
+				m.jsOK, m.jsName, m.jsSize = true, js.Name, js.Size
 			}
 			out = append(out, m)
 		default:
